@@ -4,14 +4,20 @@
 //   includes            stdin lines "<root>\t<file;file;...>\t<lib;lib;...>" (paths
 //                       relative to <root> or absolute; "-" for an empty list)
 //
-// For every case the working directory is changed to <root> (relative -L
-// paths are resolved against it by the code under test), the debug log of the
+// For every case the working directory is changed to <root> — the directory the
+// tool is started in, which the driver may choose below the project root
+// (relative argument and -L paths are resolved against it by the code under test), the debug log of the
 // parser crate is captured (`reading file`, `adding include ...`), and the
 // result line holds
 //   read    : the paths logged by `parse_file` as "reading file `...`", in order
 //   files   : [name, is_user_input] of every entry of the returned FileLibrary, by id
 //   reports : category, code, message, primary labels [file id, start, end]
 //   kind    : "program" | "library" | "panic"
+//   defs    : the names of the templates and functions of the returned
+//             ProgramArchive / TemplateLibrary, sorted (third audit: what
+//             `ProgramArchive::new` / `TemplateLibrary::new` keep of the files read)
+//   nlog    : number of debug lines of the parser crate that were captured (so that
+//             a re-worded `reading file` line can be told from a silent logger)
 // A case that does not finish within 10 s prints {"timeout":true} and ends the
 // process (the driver restarts it on the remaining cases).
 use std::io::{BufRead, Write};
@@ -67,7 +73,7 @@ fn split_list(s: &str) -> Vec<PathBuf> {
     }
 }
 
-fn dump(kind: &str, lib: Option<&FileLibrary>, reports: &ReportCollection) -> String {
+fn dump(kind: &str, lib: Option<&FileLibrary>, defs: &[String], reports: &ReportCollection) -> String {
     let log = LOG.lock().map(|v| v.clone()).unwrap_or_default();
     let mut read = Vec::new();
     let mut adds = Vec::new();
@@ -104,8 +110,10 @@ fn dump(kind: &str, lib: Option<&FileLibrary>, reports: &ReportCollection) -> St
         ));
     }
     format!(
-        "{{\"kind\":{},\"read\":[{}],\"adds\":[{}],\"files\":[{}],\"reports\":[{}]}}",
+        "{{\"kind\":{},\"nlog\":{},\"defs\":[{}],\"read\":[{}],\"adds\":[{}],\"files\":[{}],\"reports\":[{}]}}",
         esc(kind),
+        log.len(),
+        defs.iter().map(|d| esc(d)).collect::<Vec<_>>().join(","),
         read.join(","),
         adds.join(","),
         files.join(","),
@@ -128,9 +136,19 @@ fn run_case(line: &str) -> String {
     }
     let version = program_analysis::config::COMPILER_VERSION;
     match verif_harness::guarded(|| parser::parse_files(&files, &libs, &version)) {
-        None => dump("panic", None, &Vec::new()),
-        Some(ParseResult::Program(archive, reports)) => dump("program", Some(&archive.file_library), &reports),
-        Some(ParseResult::Library(library, reports)) => dump("library", Some(&library.file_library), &reports),
+        None => dump("panic", None, &[], &Vec::new()),
+        Some(ParseResult::Program(archive, reports)) => {
+            let mut defs: Vec<String> = archive.templates.keys().cloned().collect();
+            defs.extend(archive.functions.keys().cloned());
+            defs.sort();
+            dump("program", Some(&archive.file_library), &defs, &reports)
+        }
+        Some(ParseResult::Library(library, reports)) => {
+            let mut defs: Vec<String> = library.templates.keys().cloned().collect();
+            defs.extend(library.functions.keys().cloned());
+            defs.sort();
+            dump("library", Some(&library.file_library), &defs, &reports)
+        }
     }
 }
 
